@@ -3,7 +3,7 @@
 From Coq Require Import List Bool Arith ZArith.
 Import ListNotations.
 Require Import Nib.C06.Model Nib.C06.Spec.
-Open Scope Z_scope.
+Local Open Scope Z_scope.
 
 (** what the harness observed after one transaction: accepted?, every mapping with its four
     numbers, and the ERC20 / bank balances of the fixed actor accounts for the token / denom
